@@ -491,6 +491,22 @@ pub fn directed(names: &[String]) -> Vec<Trace> {
         }
         v.push(mk(format!("every-pool-expression-{}", code), steps));
     }
+    // 2f'. the same walk (outputs only) under the non-default values of each braille code's own preferences
+    for (vi, (code, prefs)) in pools::BRAILLE_VARIANTS.iter().enumerate() {
+        let mut steps = vec![Step::Call(Op::SetRulesDir(MOUNT_A.into())), Step::Call(Op::SetPref("BrailleCode".into(), code.to_string()))];
+        for (n, val) in prefs.iter() {
+            steps.push(Step::Call(Op::SetPref(n.to_string(), val.to_string())));
+        }
+        for e in 0..pools::VALID_EXPRS.len() {
+            steps.push(Step::Call(Op::SetMathml(ExprRef::Pool(e))));
+            steps.push(Step::Call(Op::Braille(IdRef::Empty)));
+            steps.push(Step::Call(Op::Cmd("ZoomIn".into())));
+            steps.push(Step::Call(Op::NavBraille));
+            steps.push(Step::Call(Op::BraillePos));
+            steps.push(Step::Call(Op::NodeFromPos(PosRef::Abs(2))));
+        }
+        v.push(mk(format!("every-pool-expression-variant-{}-{}", vi, code), steps));
+    }
     // 2e. every documented value of the style preferences over expressions that stress the places where they are consulted
     //     (number words for huge numbers, fractions, roots, powers, tables, sets, primes, chemistry); both speech styles
     for style in pools::SPEECH_STYLES {
